@@ -27,7 +27,7 @@ def corrupt(rng, text: bytes):
 def run(R):
     if not R.build():
         return
-    R.lean(["C09", "C09Run"])
+    R.lean(["C09", "C09Run", "C01RunGit"])
     import hunted
     hunted.run(R, "C09")
     quick = R.tier == "quick"
